@@ -73,7 +73,19 @@ def build_pdf(case):
     objs[2] = W.D(Type=W.N("Pages"), Kids=[W.R(3)], Count=1)
     objs[4] = W.Stream({}, TM.ser_prog(case["prog"]))
     objs[3] = W.D(Type=W.N("Page"), Parent=W.R(2), MediaBox=[0, 0, 612, 792], Resources=res, Contents=W.R(4))
+    if case.get("prepage") is not None:
+        # an earlier page that ends with other colour spaces, colours, line width and dash pattern current and with
+        # saved states open: every page starts from the initial graphics state (ISO 32000-1 8.4.1)
+        objs[6] = W.Stream({}, PREPAGES[case["prepage"]])
+        objs[5] = W.D(Type=W.N("Page"), Parent=W.R(2), MediaBox=[0, 0, 612, 792], Resources=res, Contents=W.R(6))
+        objs[2] = W.D(Type=W.N("Pages"), Kids=[W.R(5), W.R(3)], Count=2)
     return W.build_pdf(objs)
+
+
+PREPAGES = [b"/DeviceRGB cs 1 0 0 sc /DeviceCMYK CS 0 0 0 1 SC 3 w [2 1] 0 d 10 10 m 50 50 l S",
+            b"0 0 0 1 k 1 0 0 RG q q 7 w 0 0 10 10 re B",
+            b"/CS3 cs 0.1 0.2 0.3 sc /CS4 CS 0.1 0.2 0.3 0.4 SC q 2 0 0 2 5 5 cm 0 0 m 9 9 l",
+            b"/Sep cs 0.5 scn /DN3 CS 0.1 0.2 0.3 SCN 1 J 2 j 10 10 m"]
 
 
 def _nv(v):
@@ -111,7 +123,7 @@ def run_case(case):
     desc = lambda: "content=%r forms=%r" % (  # noqa: E731
         TM.ser_prog(case["prog"])[:700], {k: (v["matrix"], TM.ser_prog(v["ops"])[:200]) for k, v in case.get("forms", {}).items()})
     try:
-        (page,) = interp.pages(pdf)
+        page = interp.pages(pdf)[-1]
         got = [c for c in interp.leaves(page) if isinstance(c, LTCurve)]
     except Exception as e:
         return Outcome(classes, nt, fail="interpreter raised %s: %s; %s" % (type(e).__name__, e, desc()))
@@ -338,7 +350,8 @@ def cases(draw):
         ops = draw(block(1, callable_names, need, alt))
         forms[name] = {"matrix": draw(st.one_of(st.just(TM.I6), MAT)), "ops": ops, "own": own, "alt": alt}
         names.append((name, need))
-    return {"prog": draw(block(0, names, [1, 1])), "forms": forms}
+    pre = draw(st.sampled_from([None, None, 0, 1, 2, 3]))
+    return {"prog": draw(block(0, names, [1, 1])), "forms": forms, "prepage": pre}
 
 
 def plan(tier):
